@@ -154,7 +154,7 @@ def run_native(h, repo, tier='quick'):
     env = _env()
     env['RDEST_VERIF_TIER'] = tier   # native checks widen their bounds in the thorough tier
     env['RUSTFLAGS'] = (env.get('RUSTFLAGS', '') + ' --cfg rdest_verif').strip()
-    cmd = ['cargo', 'test', '--offline', '--lib', '--target-dir', NATIVE_TARGET, h['name']]
+    cmd = ['cargo', 'test', '--offline', '--lib', '--target-dir', NATIVE_TARGET, h['name'], '--', '--test-threads=1']
     t0 = time.time()
     cmdtxt = "cd %s && RDEST_VERIF_TIER=%s RUSTFLAGS='--cfg rdest_verif' %s" % (repo, tier, ' '.join(cmd))
     try:
